@@ -106,11 +106,35 @@ def judge_emitted_text(text, marker, comment, width=80):
     return out
 
 
+def python_ast_differs(line, result):
+    """For lines a real generator emits: the wrapped physical lines must parse to the same syntax tree as the
+    line itself (None: same / not a statement on its own; else a description)."""
+    import ast
+
+    def tree(src):
+        src = src.rstrip()
+        if src.endswith(":"):
+            src += " pass"
+        return ast.dump(ast.parse(src + "\n"))
+    try:
+        want = tree(line.strip())
+    except SyntaxError:
+        return None
+    try:
+        got = tree("\n".join(result))
+    except SyntaxError as ex:
+        return f"wrapped form is not valid Python ({ex.msg}): {result}"
+    if got != want:
+        return f"wrapped form parses to another syntax tree: {result}"
+    return None
+
+
 class WrapMonitor:
     def __init__(self, rec):
         self.rec = rec
         self.failures = []
         self.pieces = {"python": set(), "fortran": set()}     # every physical line the wrapper handed back
+        self.ast_check = False      # switched on while a real generator is emitting
 
     def attach(self):
         import icontract
@@ -134,6 +158,11 @@ class WrapMonitor:
                 if isinstance(result, list):
                     mon.pieces[name].update(r.strip() for r in result if isinstance(r, str))
                 why = judge(line, level, width, indentation, result, marker)
+                if not why and mon.ast_check and name == "python" and isinstance(result, list) and len(result) > 1:
+                    mon.rec.count("generator_python_lines_ast_compared")
+                    d = python_ast_differs(line, result)
+                    if d:
+                        why = ("generator-line-python-ast-changed", d)
                 if why:
                     mon.failures.append((name, why, {"line": line, "level": level, "width": width,
                                                      "indentation": indentation, "target": name}))
